@@ -93,4 +93,9 @@ def encode(eng, st, s, args, kwargs, node):
 
 
 def replace(eng, st, s, a, b, node):
-    raise Unsupported("replace")
+    """str.replace(c, "") for a one-character literal c: removal of every occurrence (spec `remove_char`)."""
+    if a.py is not None and b.py is not None and len(a.py) == 1 and len(b.py) == 0:
+        c = ord(a.py) if isinstance(a.py, str) else a.py[0]
+        r = eng.specs.apply(eng, st, "remove_char", [s, VInt(c)])
+        return VSeq(r.t, s.kind)
+    raise Unsupported("replace other than removal of a single character")
